@@ -33,6 +33,17 @@ def main():
         if a.only:
             tasks = [t for t in tasks if a.only in t[0]]
         timeout_ms = getattr(mod, "TIMEOUT_MS", {}).get(a.tier, 60000 if a.tier == "quick" else 300000)
+        # the tasks are forked from a process that has already used the public API with other arguments
+        # (see vf/warmup.py): state leaking between calls shows up in the tasks' claims
+        from . import warmup
+
+        import contextlib
+        import io as _io
+
+        with contextlib.redirect_stderr(_io.StringIO()), contextlib.redirect_stdout(_io.StringIO()):
+            wnotes = warmup.api_warmup()
+        if wnotes:
+            print("warm-up calls that raised (recorded, not judged): " + "; ".join(wnotes), file=sys.stderr)
         reports = framework.run_tasks(f"vf.props.{a.prop}", tasks, a.tier, timeout_ms, workers=a.workers)
         extra = mod.coverage_extra(reports) if hasattr(mod, "coverage_extra") else None
         code = framework.finish(a.prop, a.tier, reports, t0, extra_cov=extra, mod=mod)
